@@ -14,6 +14,7 @@
 -/
 import Rbgp.Wire.StreamProofs
 import Rbgp.Wire.Nlri3Proofs
+import Rbgp.Wire.SessProofs
 namespace Rbgp.Wire.Props
 open Rbgp.Wire Rbgp.Wire.Spec
 
@@ -47,6 +48,24 @@ theorem check_run_ok_bgp_phase2 (rest : HypDec) (hr : rest.NP) (hre : rest.E3) (
 /-- the executable driver's decoder (`decP3 p noHypDec`) satisfies both hypotheses -/
 theorem driver_dec_ok (p : Profile) : (decP3 p noHypDec).NP ∧ (decP3 p noHypDec).E3 :=
   ⟨decP3_NP p (fun _ _ _ _ => by simp [noHypDec]), decP3_E3 p noHypDec_E3⟩
+
+/-- session stream (a live session task fed hostile bytes): the checker accepts every run of the session model
+    (`Sess.runSess`: the read loop of `run_select` over `try_parse`, then the FSM's reaction to the message) -/
+theorem check_run_ok_sess (rest : HypDec) (hr : rest.NP) (hre : rest.E3) (p : Profile) (c : Codec) (est : Bool)
+    (chunks : List Bytes) (eof : Bool) :
+    Sess.checkSess eof (Sess.runSess (decP3 p rest) p c est chunks eof) = .ok :=
+  Sess.checkSess_run_ok (decP3 p rest) (decP3_NP p hr) (decP3_E3 p hre) p c est chunks eof
+
+/-- the session checker rejects: a task that does not come back, a busy task, two NOTIFICATIONs, a NOTIFICATION
+    without closing, a session kept after the peer closed, a grown receive buffer -/
+theorem nonvacuous_sess :
+    Sess.checkSess false ⟨.wedge, [], false⟩ = .fail 0 "session-task-did-not-come-back" ∧
+    Sess.checkSess false ⟨.storm, [], false⟩ = .fail 0 "session-task-keeps-running-without-input" ∧
+    Sess.checkSess false ⟨.closed, [(3, 1), (3, 1)], false⟩ = .fail 0 "more-than-one-notification" ∧
+    Sess.checkSess false ⟨.up .established, [(3, 1)], false⟩ = .fail 0 "notification-sent-but-session-kept" ∧
+    Sess.checkSess true ⟨.up .established, [], false⟩ = .fail 0 "session-kept-after-the-peer-closed" ∧
+    Sess.checkSess false ⟨.up .established, [], true⟩ = .fail 0 "receive-buffer-grew-beyond-bound" ∧
+    Sess.checkSess true ⟨.closed, [(1, 2)], false⟩ = .ok := by decide
 
 /-- RTR -/
 theorem check_run_ok_rtr (chunks : List Bytes) :
